@@ -97,6 +97,9 @@ def gen_case(rng, gens=GENERATORS, max_total=6):
         if rng.random() < 0.3:
             pools = {"A": ["Lin\x1fWu", "a,b", "x|y"], "B": ["p;q", "u\tv", "d:e"], "C": ["s/t", "o o", "(q)"]}
         slates = {b: pools[b][:s] for b, s in zip(blocs, sizes)}
+    if rng.random() < 0.1:
+        # a ticket named after its lead candidate: the first candidate of every slate carries the slate's name
+        slates = {b: [b] + list(v[1:]) for b, v in slates.items()}
     props = dict(zip(blocs, simplex(rng, nb)))
     if gen == "CambridgeSampler":
         # needs a majority bloc; the default picks the first bloc with prop >= .5
